@@ -210,6 +210,13 @@ func c19Config(t *rapid.T, p *Profile) WorldConfig {
 
 // answerAll answers pending requests in the drawn order policy until nothing is pending.
 func answerAll(t *rapid.T, w *World, policy string, only string) {
+	answerAllFaulty(t, w, policy, only, 0)
+}
+
+// answerAllFaulty: as answerAll, with that percentage of the get requests
+// answered with an error or a timeout (every answer, whatever it says, gives
+// the throttle's place to the next waiting request).
+func answerAllFaulty(t *rapid.T, w *World, policy string, only string, faulty int) {
 	for i := 0; i < 3000; i++ {
 		pend := w.PendingSorted()
 		var cand []PendingView
@@ -238,7 +245,18 @@ func answerAll(t *rapid.T, w *World, policy string, only string) {
 		default:
 			pick = cand[rapid.IntRange(0, len(cand)-1).Draw(t, "pick")]
 		}
-		w.Exec(Op{K: "ans", S: pick.P.Subject, Q: pick.P.Query, A: actorEnc(pick.Actor), N: pick.Ord, O: "ok"})
+		op := Op{K: "ans", S: pick.P.Subject, Q: pick.P.Query, A: actorEnc(pick.Actor), N: pick.Ord, O: "ok"}
+		if faulty > 0 && strings.HasPrefix(pick.P.Subject, "get.") && rapid.IntRange(0, 99).Draw(t, "faultyget") < faulty {
+			switch rapid.IntRange(0, 2).Draw(t, "faultkind") {
+			case 0:
+				op.O, op.P = "err", "system.notFound"
+			case 1:
+				op.O, op.P = "err", "system.internalError"
+			default:
+				op.O = "timeout"
+			}
+		}
+		w.Exec(op)
 		if w.Failed != "" || w.Deadlock != "" {
 			return
 		}
@@ -279,12 +297,17 @@ func c19Scenario(t *rapid.T, w *World, p *Profile) {
 			w.Exec(Op{K: "creq", C: i, ID: 1, M: "version", P: `{"protocol":"1.2.3"}`})
 		}
 		setMeta(w, c19Meta{Mode: "refs", Limit: w.Cfg.ReferenceThrottle, Expected: -1, Alive: 1, Arm: true})
+		// failing gets: an error or timeout answer frees the place like any other
+		faulty := rapid.SampledFrom([]int{0, 0, 25, 60, 100}).Draw(t, "faultygets")
+		if faulty > 0 {
+			m.class("refs_with_failing_gets")
+		}
 		// one root per connection, loaded one connection at a time so that the bound is tight (N)
 		for i := 0; i < nconn; i++ {
 			root := fmt.Sprintf("t.r%d", rapid.IntRange(0, nres-1).Draw(t, "root"))
 			w.Exec(Op{K: "creq", C: i, ID: 2, M: "subscribe." + root})
 			// answer gets in the policy order, access at a drawn moment
-			answerAll(t, w, policy, "")
+			answerAllFaulty(t, w, policy, "", faulty)
 		}
 		// references added by one change event to a model that has been sent are
 		// followed under the same bound, per connection holding the model
@@ -315,7 +338,7 @@ func c19Scenario(t *rapid.T, w *World, p *Profile) {
 					setMeta(w, c19Meta{Mode: "refs", Limit: w.Cfg.ReferenceThrottle, Expected: -1, Alive: holders, Arm: true})
 					w.Exec(Op{K: "rawev", S: "event." + name + ".change", P: `{"values":{` + vals + `}}`, Key: "c19:event-adds-references"})
 					m.class("event_adds_references_beyond_limit")
-					answerAll(t, w, policy, "")
+					answerAllFaulty(t, w, policy, "", faulty)
 				}
 			}
 		}
